@@ -24,7 +24,7 @@ From OV Require Proofs.SrcEqNewtonC.
    of the restored coordinates (all columns), the rounding floor of the difference quotient for any function, the total error
    (truncation + floor + drift) and the optimal-step trade-off.
    (4) drift and rounding floor AT BINARY64 ITSELF (primitive floats through Flocq's specification), any closure, "whenever finite".
-   Still not proved: the complex rounding floor (the complex division by (delta, 0) has six roundings); that the closure's own
+   Still not proved: the complex variants at binary64 itself (only the standard model); that the closure's own
    evaluation error eps is small is the user's obligation (it is a hypothesis everywhere). *)
 From Coq Require Import Reals Lra Lia ZArith.
 From Coq Require Floats.
@@ -607,6 +607,60 @@ Proof.
   split; [lra|]. split; [intros x y; exists 0%R; split; [rewrite Rabs_R0; lra|ring]|].
   split; [intros x y; exists 0%R; split; [rewrite Rabs_R0; lra|ring]|].
   do 3 eexists. cbn. reflexivity.
+Qed.
+
+(* the rounding floor of the complex entry, any function: the complex subtraction rounds each part once, the complex division by
+   (delta, 0) -- den = delta delta + 0 0, (re z delta + im z 0) / den, (im z delta - re z 0) / den -- five more times:
+   each part of J_ij is the exact quotient of the returned parts up to gam 6 = 6u / (1 - 6u).  Ar + i Ai, Br + i Bi = the exact values
+   of f_i at the two call points, known to absolute errors ea, eb in each part *)
+Theorem jacobian_rounding_floor_C : forall (u : R), (0 <= u < 1)%R ->
+  forall (fadd fsub fmul fdiv : R -> R -> R) (fsqrt : R -> R),
+  (forall x y : R, exists e : R, (Rabs e <= u)%R /\ fadd x y = ((x + y) * (1 + e))%R) ->
+  (forall x y : R, exists e : R, (Rabs e <= u)%R /\ fsub x y = ((x - y) * (1 + e))%R) ->
+  (forall x y : R, exists e : R, (Rabs e <= u)%R /\ fmul x y = (x * y * (1 + e))%R) ->
+  (forall x y : R, y <> 0%R -> exists e : R, (Rabs e <= u)%R /\ fdiv x y = (x / y * (1 + e))%R) ->
+  forall (F : list (Complex.cplx (RoundModel.ARm fadd fsub fmul fdiv)) -> res (list (Complex.cplx (RoundModel.ARm fadd fsub fmul fdiv)))) (x : list (Complex.cplx (RoundModel.ARm fadd fsub fmul fdiv))) (d : R) (J : matrix (NA (NCplx (JacExactRoundC.SARm fadd fsub fmul fdiv fsqrt)))) (evs : list (list (Complex.cplx (RoundModel.ARm fadd fsub fmul fdiv)))),
+  jacobian (NCplx (JacExactRoundC.SARm fadd fsub fmul fdiv fsqrt)) F x (emb (NCplx (JacExactRoundC.SARm fadd fsub fmul fdiv fsqrt)) d) = Ok (J, evs) -> d <> 0%R -> (INR 6 * u < 1)%R ->
+  forall (i j : nat) (Ar Ai Br Bi ea eb : R), (i < rows J)%nat -> (j < length x)%nat ->
+  (forall v, F (JacExactGen.call_pt (NCplx (JacExactRoundC.SARm fadd fsub fmul fdiv fsqrt)) x (emb (NCplx (JacExactRoundC.SARm fadd fsub fmul fdiv fsqrt)) d) j) = Ok v ->
+     (Rabs (Complex.re (nth i v (@zero (NA (NCplx (JacExactRoundC.SARm fadd fsub fmul fdiv fsqrt))))) - Ar) <= ea)%R /\ (Rabs (Complex.im (nth i v (@zero (NA (NCplx (JacExactRoundC.SARm fadd fsub fmul fdiv fsqrt))))) - Ai) <= ea)%R) ->
+  (forall v, F x = Ok v -> (Rabs (Complex.re (nth i v (@zero (NA (NCplx (JacExactRoundC.SARm fadd fsub fmul fdiv fsqrt))))) - Br) <= eb)%R /\ (Rabs (Complex.im (nth i v (@zero (NA (NCplx (JacExactRoundC.SARm fadd fsub fmul fdiv fsqrt))))) - Bi) <= eb)%R) ->
+  exists q : (Complex.cplx (RoundModel.ARm fadd fsub fmul fdiv)), mget J i j = Ok q /\
+    (Rabs (Complex.re q - (Ar - Br) / d) <=
+       (RoundModel.gam u 6 * Rabs (Ar - Br) + (1 + RoundModel.gam u 6) * (ea + eb)) / Rabs d)%R /\
+    (Rabs (Complex.im q - (Ai - Bi) / d) <=
+       (RoundModel.gam u 6 * Rabs (Ai - Bi) + (1 + RoundModel.gam u 6) * (ea + eb)) / Rabs d)%R.
+Proof. intros u Hu fadd fsub fmul fdiv fsqrt Ha Hs Hm Hd. exact (JacExactRoundC.jacobian_rounding_floor_C_lemma u Hu fadd fsub fmul fdiv fsqrt Ha Hs Hm Hd). Qed.
+Check jacobian_rounding_floor_C : forall (u : R), (0 <= u < 1)%R ->
+  forall (fadd fsub fmul fdiv : R -> R -> R) (fsqrt : R -> R),
+  (forall x y : R, exists e : R, (Rabs e <= u)%R /\ fadd x y = ((x + y) * (1 + e))%R) ->
+  (forall x y : R, exists e : R, (Rabs e <= u)%R /\ fsub x y = ((x - y) * (1 + e))%R) ->
+  (forall x y : R, exists e : R, (Rabs e <= u)%R /\ fmul x y = (x * y * (1 + e))%R) ->
+  (forall x y : R, y <> 0%R -> exists e : R, (Rabs e <= u)%R /\ fdiv x y = (x / y * (1 + e))%R) ->
+  forall (F : list (Complex.cplx (RoundModel.ARm fadd fsub fmul fdiv)) -> res (list (Complex.cplx (RoundModel.ARm fadd fsub fmul fdiv)))) (x : list (Complex.cplx (RoundModel.ARm fadd fsub fmul fdiv))) (d : R) (J : matrix (NA (NCplx (JacExactRoundC.SARm fadd fsub fmul fdiv fsqrt)))) (evs : list (list (Complex.cplx (RoundModel.ARm fadd fsub fmul fdiv)))),
+  jacobian (NCplx (JacExactRoundC.SARm fadd fsub fmul fdiv fsqrt)) F x (emb (NCplx (JacExactRoundC.SARm fadd fsub fmul fdiv fsqrt)) d) = Ok (J, evs) -> d <> 0%R -> (INR 6 * u < 1)%R ->
+  forall (i j : nat) (Ar Ai Br Bi ea eb : R), (i < rows J)%nat -> (j < length x)%nat ->
+  (forall v, F (JacExactGen.call_pt (NCplx (JacExactRoundC.SARm fadd fsub fmul fdiv fsqrt)) x (emb (NCplx (JacExactRoundC.SARm fadd fsub fmul fdiv fsqrt)) d) j) = Ok v ->
+     (Rabs (Complex.re (nth i v (@zero (NA (NCplx (JacExactRoundC.SARm fadd fsub fmul fdiv fsqrt))))) - Ar) <= ea)%R /\ (Rabs (Complex.im (nth i v (@zero (NA (NCplx (JacExactRoundC.SARm fadd fsub fmul fdiv fsqrt))))) - Ai) <= ea)%R) ->
+  (forall v, F x = Ok v -> (Rabs (Complex.re (nth i v (@zero (NA (NCplx (JacExactRoundC.SARm fadd fsub fmul fdiv fsqrt))))) - Br) <= eb)%R /\ (Rabs (Complex.im (nth i v (@zero (NA (NCplx (JacExactRoundC.SARm fadd fsub fmul fdiv fsqrt))))) - Bi) <= eb)%R) ->
+  exists q : (Complex.cplx (RoundModel.ARm fadd fsub fmul fdiv)), mget J i j = Ok q /\
+    (Rabs (Complex.re q - (Ar - Br) / d) <=
+       (RoundModel.gam u 6 * Rabs (Ar - Br) + (1 + RoundModel.gam u 6) * (ea + eb)) / Rabs d)%R /\
+    (Rabs (Complex.im q - (Ai - Bi) / d) <=
+       (RoundModel.gam u 6 * Rabs (Ai - Bi) + (1 + RoundModel.gam u 6) * (ea + eb)) / Rabs d)%R.
+Print Assumptions jacobian_rounding_floor_C.
+Example jacobian_rounding_floor_C_nonvacuous :
+  (INR 6 * 0 < 1)%R /\
+  (forall x y : R, exists e : R, (Rabs e <= 0)%R /\ Rmult x y = (x * y * (1 + e))%R) /\
+  (forall x y : R, y <> 0%R -> exists e : R, (Rabs e <= 0)%R /\ Rdiv x y = (x / y * (1 + e))%R) /\
+  exists J evs,
+    jacobian (NCplx (JacExactRoundC.SARm Rplus Rminus Rmult Rdiv R_sqrt.sqrt))
+      (fun p => Ok p) [Complex.mkC (A := RoundModel.ARm Rplus Rminus Rmult Rdiv) 1%R 1%R]
+      (emb (NCplx (JacExactRoundC.SARm Rplus Rminus Rmult Rdiv R_sqrt.sqrt)) (1 / 4)%R) = Ok (J, evs) /\ (0 < rows J)%nat.
+Proof.
+  split; [lra|]. split; [intros x y; exists 0%R; split; [rewrite Rabs_R0; lra|ring]|].
+  split; [intros x y Hy; exists 0%R; split; [rewrite Rabs_R0; lra|field; exact Hy]|].
+  do 2 eexists. split; [cbn; reflexivity|]. cbn. lia.
 Qed.
 
 (* ---- the same AT IEEE BINARY64 ITSELF (NReal AF, the instance the correspondence check runs against the Rust code): the standard-model
